@@ -5,7 +5,7 @@ records the outcome in seeded/<id>/result.json.  usage: run_seeded_all.py [ids..
 import json, os, re, subprocess, sys
 from concurrent.futures import ThreadPoolExecutor
 HERE = os.path.dirname(os.path.dirname(os.path.abspath(__file__)))
-EXTRA = {"C04-m2": ["C06"], "C10-m3": ["C16"], "C05-m2": ["C06"], "C14-r2m2": ["C08"], "C13-r2m3": ["C15"], "C07-r2m1": ["C06"], "C01-r2m3": ["C06"]}
+EXTRA = {"C04-m2": ["C06"], "C10-m3": ["C16"], "C05-m2": ["C06"], "C14-r2m2": ["C08"], "C13-r2m3": ["C15"], "C07-r2m1": ["C06"], "C01-r2m3": ["C06"], "C13-r3m2": ["C06", "C15"], "C07-r3m2": ["C06"], "C06-r3m2": ["C07"], "C16-r3m1": ["C08"], "C15-r3m2": ["C14"], "C14-r3m2": ["C15"], "C04-r3m1": ["C01"], "C04-r3m2": ["C01"]}
 ids = sys.argv[1:] or sorted(d for d in os.listdir(os.path.join(HERE, "seeded")) if os.path.isdir(os.path.join(HERE, "seeded", d)))
 
 def one(sid):
@@ -25,6 +25,6 @@ def one(sid):
               open(os.path.join(HERE, "seeded", sid, "result.json"), "w"), indent=1)
     return sid, caught, with_input
 
-with ThreadPoolExecutor(3) as ex:
+with ThreadPoolExecutor(int(os.environ.get("SEEDED_PAR", "3"))) as ex:
     for sid, caught, wi in ex.map(one, ids):
         print(sid, "caught by", caught, "with input", wi, flush=True)
